@@ -47,7 +47,8 @@ fn until_len(w: &[u8], n: u64, d: u8) -> usize {
 /// read_line_strict (R6, contract assumed in Verus): all wires over {CR, LF, 'a'} of length <= 9, limits 1..=7,
 /// segment sizes {1, 2, 3, 64}, BufReader capacities {1, 4}
 #[test]
-fn vp_native_read_line_strict_contract() {
+fn vp_native_read_line_strict_contract() { crate::verif_native_watchdog::watched(vp_native_read_line_strict_contract_body); }
+fn vp_native_read_line_strict_contract_body() {
     let mut cases = 0u64;
     for w in wires(&[13, 10, b'a'], 9) {
         for max in 1u64..=7 {
@@ -80,7 +81,8 @@ fn vp_native_read_line_strict_contract() {
 /// std model behind read_line (`vp_take_read_until`): k = until_len(wire, N, d), appended bytes, rest readable;
 /// independent of segmentation.  Wires over {LF, 'a', 'b'} of length <= 8, N in 0..=9
 #[test]
-fn vp_native_take_read_until_model() {
+fn vp_native_take_read_until_model() { crate::verif_native_watchdog::watched(vp_native_take_read_until_model_body); }
+fn vp_native_take_read_until_model_body() {
     let mut cases = 0u64;
     for w in wires(&[10, b'a', b'b'], 8) {
         for n in 0u64..=9 {
@@ -102,7 +104,8 @@ fn vp_native_take_read_until_model() {
 
 /// read_line against its Verus contract (proved body; this run checks the *assumed wrapper* end to end)
 #[test]
-fn vp_native_read_line_contract() {
+fn vp_native_read_line_contract() { crate::verif_native_watchdog::watched(vp_native_read_line_contract_body); }
+fn vp_native_read_line_contract_body() {
     let mut cases = 0u64;
     for w in wires(&[13, 10, b'a'], 8) {
         for max in 0u64..=6 {
@@ -126,7 +129,8 @@ fn vp_native_read_line_contract() {
 
 /// replace_byte (R6): pointwise replacement, all slices over {0, 1, 2} of length <= 7, all (byte, replace) in {0,1,2}^2
 #[test]
-fn vp_native_replace_byte_contract() {
+fn vp_native_replace_byte_contract() { crate::verif_native_watchdog::watched(vp_native_replace_byte_contract_body); }
+fn vp_native_replace_byte_contract_body() {
     let mut cases = 0u64;
     for w in wires(&[0, 1, 2], 7) {
         for byte in 0u8..3 { for rep in 0u8..3 {
@@ -143,7 +147,8 @@ fn vp_native_replace_byte_contract() {
 /// `{:x}` / usize::from_str_radix(_, 16) are inverse and produce 1..16 hex digits without LF (axiom behind `hex_lower`,
 /// `chunk_size_spec`): all n < 2^16, powers of two +-1 up to 2^64
 #[test]
-fn vp_native_hex_roundtrip() {
+fn vp_native_hex_roundtrip() { crate::verif_native_watchdog::watched(vp_native_hex_roundtrip_body); }
+fn vp_native_hex_roundtrip_body() {
     let mut ns: Vec<usize> = (0..65536usize).collect();
     for s in 16..64 { let p = 1usize << s; ns.extend([p - 1, p, p + 1]); }
     ns.push(usize::MAX);
@@ -159,7 +164,8 @@ fn vp_native_hex_roundtrip() {
 /// str::parse::<u64> == u64_from_str (units/inc/body_prelude.rs): all strings over {'+','-','0','1','9','a',' '} of length <= 5,
 /// plus the 64-bit boundary values
 #[test]
-fn vp_native_u64_from_str_spec() {
+fn vp_native_u64_from_str_spec() { crate::verif_native_watchdog::watched(vp_native_u64_from_str_spec_body); }
+fn vp_native_u64_from_str_spec_body() {
     fn spec(s: &str) -> Option<u64> {
         let d = s.strip_prefix('+').unwrap_or(s);
         if d.is_empty() || !d.bytes().all(|b| b.is_ascii_digit()) { return None; }
@@ -182,7 +188,8 @@ fn vp_native_u64_from_str_spec() {
 
 /// StatusCode::from_str == status_of_token (units/inc/head_spec.rs): all 3-byte tokens over a 14-letter alphabet, all lengths <= 4 over digits
 #[test]
-fn vp_native_status_of_token_spec() {
+fn vp_native_status_of_token_spec() { crate::verif_native_watchdog::watched(vp_native_status_of_token_spec_body); }
+fn vp_native_status_of_token_spec_body() {
     fn spec(t: &[u8]) -> Option<u16> {
         if t.len() == 3 && t.iter().all(|b| b.is_ascii_digit()) && t[0] != b'0' {
             Some(((t[0] - 48) as u16) * 100 + ((t[1] - 48) as u16) * 10 + (t[2] - 48) as u16)
